@@ -10,6 +10,7 @@ import TTModel.Guard
 import TTModel.Sweep
 import TTModel.Kernels
 import TTModel.Cross
+import TTModel.Manifold
 import TTModel.Scalar
 /-!
 # Line-protocol driver: one operation per input line, one canonical outcome per output line.
@@ -312,6 +313,12 @@ def run : PM String := do
       let (_, P) ← dense; let x ← core; let y ← core
       let r := Kern.phiBckX (fun a c => P [a,c]) x y
       pure (showDense [x.r0, y.r0] (fun i => r (i.getD 0 0) (i.getD 1 0)))
+  | "delta2cores" => do
+      let (k, ls) ← tt; let (_, rs) ← tt; let (_, ds) ← tt
+      pure (showTT k ((Manifold.delta2cores ls rs ds).map freeze))
+  | "project" => do
+      let (k, ls) ← tt; let (_, rs) ← tt; let (_, zs) ← tt
+      pure (showTT k ((Manifold.project ls rs zs).map freeze))
   | "leftupdate" => do
       let k ← nat; let L ← many k natList; let n ← nat; let piv ← natList
       pure s!"set {Cross.leftUpdate L.toList n piv}"
